@@ -1,10 +1,10 @@
 (* C20 — mesh compression conserves volume, validity and transferred totals.
    Statements only; proofs are in Proofs*.v. *)
-From Coq Require Import List ZArith Bool Reals Permutation QArith.
+From Coq Require Import List ZArith Bool Reals Permutation QArith Lra.
 Set Default Timeout 120.
 Import ListNotations.
 From FV.C20 Require Import Model ModelReindex ModelEdge ProofsCanon ProofsMerge ProofsVol ProofsTransfer
-  ProofsCheck ProofsReindex ProofsExtra ProofsReindexVol ProofsEdge ProofsEdgeVol ProofsEdgeSeq Harness.
+  ProofsCheck ProofsReindex ProofsExtra ProofsReindexVol ProofsEdge ProofsEdgeVol ProofsEdgeSeq ModelDriver ProofsAngle Harness.
 
 (* ---- merge step (merge_polyhedrons on one connected group) -------------
    hypothesis wf_poly: faces have >= 3 pairwise distinct nodes and every
@@ -238,6 +238,46 @@ Proof.
   intros _. exists (0, 0, 1)%R. apply planar_flat. intros v Hv. vm_compute in Hv. destruct Hv.
 Qed.
 
+(* ---- the decision of remove_edges (ModelDriver.v): calc_normal and the angle
+   test.  If the test sees a cosine of EXACTLY 1 between two flat faces that
+   share a node (normals parallel and equally oriented; stated without square
+   roots), the two faces are coplanar: the hypothesis planar_at of the volume
+   theorem.  In the coplanar-only domain (cos_thresh above every non-flat
+   dihedral cosine) every edge the test admits is of this kind. *)
+Theorem C20_angle_test_planar : forall (pos : Z -> V3 R) f1 f2 a,
+  In a f1 -> In a f2 -> face_flat pos f1 -> face_flat pos f2 ->
+  let u := normalv ROps pos f1 in let v := normalv ROps pos f2 in
+  (0 < dotv ROps u v)%R -> (dotv ROps u v * dotv ROps u v = dotv ROps u u * dotv ROps v v)%R ->
+  planar_at pos (pos a) (f1 ++ f2).
+Proof. exact angle_test_planar. Qed.
+
+Theorem C20_remove_one_edge_cos1_volume : forall (pos : Z -> V3 R) p A B p' f1 f2,
+  wf_poly p -> remove_one_edge p A B = Some p' ->
+  filter (contains_ab A B) p = [f1; f2] -> In A f1 -> In A f2 ->
+  face_flat pos f1 -> face_flat pos f2 ->
+  (0 < dotv ROps (normalv ROps pos f1) (normalv ROps pos f2))%R ->
+  (dotv ROps (normalv ROps pos f1) (normalv ROps pos f2) * dotv ROps (normalv ROps pos f1) (normalv ROps pos f2) =
+   dotv ROps (normalv ROps pos f1) (normalv ROps pos f1) * dotv ROps (normalv ROps pos f2) (normalv ROps pos f2))%R ->
+  vol ROps pos p' = vol ROps pos p.
+Proof. exact remove_one_edge_cos1_volume. Qed.
+
+(* non-vacuity: the two top triangles of the split cube *)
+Example C20_example_angle_test :
+  let p := [[4;5;6]; [4;6;7]; [5;4;0;1]; [6;5;1;2]; [7;6;2;3]; [4;7;3;0]; [3;2;1;0]]%Z in
+  filter (contains_ab 4 6) p = [[4;5;6]; [4;6;7]]%Z /\
+  face_flat ex_cube_pos [4;5;6]%Z /\ face_flat ex_cube_pos [4;6;7]%Z /\
+  normalv ROps ex_cube_pos [4;5;6]%Z = (0 - 0, 0 - 0, 1 - 0)%R /\
+  (0 < dotv ROps (normalv ROps ex_cube_pos [4;5;6]%Z) (normalv ROps ex_cube_pos [4;6;7]%Z))%R.
+Proof.
+  intros p. split; [vm_compute; reflexivity|].
+  split; [intros w Hw; simpl in Hw; repeat (destruct Hw as [<- | Hw]; [cbv [normalv ex_cube_pos dotv crossv vsub vsum vadd vzero map fold_right hd ROps add mul sub zero]; ring|]); destruct Hw|].
+  split; [intros w Hw; simpl in Hw; repeat (destruct Hw as [<- | Hw]; [cbv [normalv ex_cube_pos dotv crossv vsub vsum vadd vzero map fold_right hd ROps add mul sub zero]; ring|]); destruct Hw|].
+  split.
+  - cbv [normalv ex_cube_pos crossv vsub vsum vadd vzero map fold_right ROps add mul sub zero].
+    f_equal; [f_equal|]; ring.
+  - cbv [normalv ex_cube_pos dotv crossv vsub vsum vadd vzero map fold_right ROps add mul sub zero]. lra.
+Qed.
+
 Print Assumptions C20_merge_closed.
 Print Assumptions C20_merge_volume.
 Print Assumptions C20_sum_conserves_total.
@@ -246,3 +286,5 @@ Print Assumptions C20_remove_one_edge_wf.
 Print Assumptions C20_remove_one_edge_volume.
 Print Assumptions C20_remove_edge_sequence.
 Print Assumptions C20_remove_edges_total_volume.
+Print Assumptions C20_angle_test_planar.
+Print Assumptions C20_remove_one_edge_cos1_volume.
